@@ -112,6 +112,45 @@ def gen_payload(r, maxlen=255):
     return out[:maxlen]
 
 
+class Broken:
+    """Placeholder for a message whose builder raised (reported by check_message)."""
+
+    def __init__(self, what, exc):
+        self.what, self.exc = what, exc
+
+
+class _ClassProxy:
+    def __init__(self, cls):
+        self._cls = cls
+
+    def __call__(self, *a, **k):
+        return self._cls(*a, **k)
+
+    def __getattr__(self, name):
+        attr = getattr(self._cls, name)
+        if not callable(attr):
+            return attr
+
+        def guarded(*a, **k):
+            try:
+                return attr(*a, **k)
+            except Exception as e:  # noqa - a builder that raises is a finding, not a harness crash
+                return Broken(f"{self._cls.__name__}.{name}{a[:6]!r}", e)
+
+        return guarded
+
+
+class _DriverProxy:
+    """geckolib.driver with every handler class's builders guarded."""
+
+    def __init__(self, D):
+        self._D = D
+
+    def __getattr__(self, name):
+        attr = getattr(self._D, name)
+        return _ClassProxy(attr) if isinstance(attr, type) else attr
+
+
 def messages(sh, r, D, n_random):
     """Yield (name, family, handler object, expected inner content, fields dict, decode check)."""
     S = struct.pack
@@ -179,6 +218,10 @@ def check_message(sh, fams, D, name, fam, h, exp_inner, dec, sender, ids):
     src, dst = ids  # ids the message was built with: parms[3] is our id (source), parms[2] the peer's (destination)
     sh.evaluations += 1
     sh.see("message_kinds", name)
+    if isinstance(h, Broken):
+        d = describe_exc(h.exc)
+        sh.violation(f"C04:build-raise:{name}", f"building {name} with in-range field values raised {d['type']}: {d['msg']} ({h.what})", d)
+        return
     try:
         wire = h.send_bytes
     except Exception as e:
@@ -272,7 +315,7 @@ def shard_messages(sh: Shard, seed, n_random):
     fams = handler_families()
     r = rng("C04m", seed)
     sender = ("10.1.2.3", 10022)
-    for name, fam, h, exp, dec in messages(sh, r, D, n_random):
+    for name, fam, h, exp, dec in messages(sh, r, _DriverProxy(D), n_random):
         check_message(sh, fams, D, name, fam, h, exp, dec, sender, (b"IOSabc", b"SPA00:11:22:33:44:55"))
     sh.nontrivial(f"messages:{seed}")
 
